@@ -1,5 +1,6 @@
-// Reproduction of the C09 findings F1-F4 against the real dsd code, without the
-// harness: cd /verif && go run ./h/c09/repro
+// Reproduction of the C09 findings F1-F5 against the real dsd code, without the
+// harness: cd /verif && go run ./h/c09/repro        (F1-F4)
+//          cd /verif && go run ./h/c09/repro f5     (F5: kills the process on the unchanged tree)
 // (expected output on the unchanged tree is given in the comments; the
 // descriptions and proposed patches are in ../proposed_fixes/*.diff)
 package main
@@ -7,6 +8,7 @@ package main
 import (
 	"fmt"
 	"net/http/httptest"
+	"os"
 
 	"github.com/safing/portbase/formats/dsd"
 )
@@ -14,6 +16,15 @@ import (
 type T struct{ S string }
 
 func main() {
+	if len(os.Args) > 1 && os.Args[1] == "f5" {
+		// F5: 'M' + MsgPack map32 header claiming 2^32-1 entries, loaded into an interface{}.
+		var v interface{}
+		f, err := dsd.Load([]byte{0x4d, 0xdf, 0xff, 0xff, 0xff, 0xff}, &v)
+		fmt.Printf("F5 format=%d err=%v\n", f, err)
+		// unchanged: runtime: out of memory: cannot allocate 310311387136-byte block; fatal error: out of memory
+		// (on a machine that grants the mapping the call returns an EOF error after reserving ~290 GiB)
+		return
+	}
 	// F1: Dump(v, AUTO) prefixes identifier 0, which Load rejects.
 	b, _ := dsd.Dump(&T{"a"}, dsd.AUTO)
 	var t1 T
